@@ -125,6 +125,8 @@ MUTANTS = [
     ('C05', 'ordered-sets-ignored', [R('lark/parsers/earley.py', 'self.Set = OrderedSet if ordered_sets else set', 'self.Set = set')]),
     ('C05', 'sort-key-priority-sign-flipped', [R('lark/parsers/earley_forest.py', 'return self.is_empty, -self.priority, self.rule.order', 'return self.is_empty, self.priority, self.rule.order')]),
     ('C05', 'symbol-priority-is-min', [R('lark/parsers/earley_forest.py', 'node.priority = max(child.priority for child in node.children)', 'node.priority = min(child.priority for child in node.children)')]),
+    ('C05', 'invert-does-not-negate-terminal-priorities', [R('lark/lark.py', "            for term in self.terminals:\n                term.priority = -term.priority\n", "")]),
+    ('C05', 'priority-none-keeps-terminal-priorities', [R('lark/lark.py', "            for term in self.terminals:\n                term.priority = 0\n", "")]),
     ('C05', 'rule-options-shared-again', [R('lark/load_grammar.py', '                    exp_options = copy(options)\n\n                for sym in expansion:', '                    exp_options = options\n\n                for sym in expansion:')]),
     ('C11', 'terminal-priority-not-serialised', [R('lark/lexer.py', "__serialize_fields__ = 'name', 'pattern', 'priority'", "__serialize_fields__ = 'name', 'pattern'")]),
     ('C11', 'empty-indices-not-serialised', [R('lark/grammar.py', "__serialize_fields__ = 'keep_all_tokens', 'expand1', 'priority', 'template_source', 'empty_indices'", "__serialize_fields__ = 'keep_all_tokens', 'expand1', 'priority', 'template_source'")]),
